@@ -184,6 +184,10 @@ func (c *collector) add(res *Result) {
 	for k, v := range res.Probes {
 		o.Probes[k] += v
 	}
+	if strings.HasSuffix(res.Plan.Family, "+soak") {
+		o.Probes["soak_run"]++
+		o.Probes["soak_run_requests"] += len(res.Tasks)
+	}
 	o.SimS += float64(res.SimNs) / 1e9
 	o.Steps += res.Steps
 	o.NoOps += res.NoOps
